@@ -19,11 +19,12 @@ Qed.
 Lemma sumf_init k progs : sumf (cnt k) (map init_thread progs) = 0.
 Proof. induction progs as [|p l IH]; cbn [map sumf]; [reflexivity|]. rewrite IH. reflexivity. Qed.
 
-Lemma init_inv level progs : ginv (init level progs).
+Lemma initb_inv level b progs : ginv (initb level b progs).
 Proof.
-  constructor; cbn [init sh ths lvl cur minv ar aw lck].
+  constructor; cbn [initb sh ths lvl cur minv ar aw lck mail].
   - rewrite sumf_init. reflexivity.
   - rewrite sumf_init. reflexivity.
+  - constructor.
   - lia.
   - intros _. lia.
   - intros _. split; reflexivity.
@@ -31,14 +32,21 @@ Proof.
     apply tinv_idle; [reflexivity|reflexivity|constructor].
 Qed.
 
+Lemma init_inv level progs : ginv (init level progs).
+Proof. apply initb_inv. Qed.
+
+Lemma reachb_inv level b progs sched : ginv (run true sched (initb level b progs)).
+Proof. apply run_inv. apply initb_inv. Qed.
 Lemma reach_inv level progs sched : ginv (run true sched (init level progs)).
-Proof. apply run_inv. apply init_inv. Qed.
+Proof. apply reachb_inv. Qed.
 
 (* ---------- consequences of the invariant ---------- *)
 Lemma live_count_le k st :
-  count_kind k (live st) <= sumf (cnt k) (ths st).
+  count_kind k (live st) <= sumf (cnt k) (ths st) + count_kind k (mail (sh st)).
 Proof.
-  unfold live. rewrite count_kind_flat_map. apply sumf_le. intros th. unfold cnt. lia.
+  unfold live. rewrite count_kind_app, count_kind_flat_map.
+  assert (sumf (fun th => count_kind k (tokens_of th)) (ths st) <= sumf (cnt k) (ths st)); [|lia].
+  apply sumf_le. intros th. unfold cnt. lia.
 Qed.
 
 Lemma ginv_writer_exclusion st : ginv st -> lvl (sh st) = 3 -> count_kind KW (live st) <= 1.
@@ -49,7 +57,9 @@ Qed.
 Lemma ginv_min_le_live st t :
   ginv st -> In t (live st) -> tracked t -> minv (sh st) <= tv t /\ tv t <= cur (sh st).
 Proof.
-  intros G I K. unfold live in I. apply in_flat_map in I. destruct I as (th & Hth & Ht).
+  intros G I K. unfold live in I. apply in_app_or in I. destruct I as [I|I].
+  2:{ pose proof (g_mail _ G) as F. rewrite Forall_forall in F. apply (F t I K). }
+  apply in_flat_map in I. destruct I as (th & Hth & Ht).
   apply In_nth_error in Hth. destruct Hth as (i & E).
   pose proof (tinv_tokens _ _ _ (g_th _ G _ _ E)) as F. rewrite Forall_forall in F.
   apply (F t Ht K).
@@ -59,14 +69,14 @@ Lemma ginv_counters_quiescent st :
   ginv st -> quiescent st ->
   ar (sh st) = count_kind KR (live st) /\ aw (sh st) = count_kind KW (live st).
 Proof.
-  intros G Q. rewrite (g_ar _ G), (g_aw _ G). unfold live. rewrite !count_kind_flat_map.
-  split; apply sumf_ext_in; intros th Hth; apply cnt_idle; apply Q; exact Hth.
+  intros G Q. rewrite (g_ar _ G), (g_aw _ G). unfold live. rewrite !count_kind_app, !count_kind_flat_map.
+  split; f_equal; apply sumf_ext_in; intros th Hth; apply cnt_idle; apply Q; exact Hth.
 Qed.
 
 Lemma all_done_no_tokens st th :
   ginv st -> all_done st -> In th (ths st) -> tokens_of th = [].
 Proof.
-  intros G D Hth. destruct (D th Hth) as (P & C).
+  intros G [DM D] Hth. destruct (D th Hth) as (P & C).
   apply In_nth_error in Hth. destruct Hth as (i & E).
   assert (EP : pend th = []) by (apply (i_pend _ _ _ (g_th _ G _ _ E)); rewrite P; reflexivity).
   unfold cur_op in C. unfold tokens_of.
@@ -78,9 +88,9 @@ Qed.
 Lemma ginv_counters_zero st : ginv st -> all_done st -> ar (sh st) = 0 /\ aw (sh st) = 0.
 Proof.
   intros G D.
-  assert (Q : quiescent st) by (intros th Hth; apply (D th Hth)).
+  assert (Q : quiescent st) by (intros th Hth; apply (proj2 D th Hth)).
   destruct (ginv_counters_quiescent st G Q) as (A & W). rewrite A, W.
-  unfold live. rewrite !count_kind_flat_map.
+  unfold live. rewrite (proj1 D), !app_nil_r, !count_kind_flat_map.
   split; (erewrite sumf_ext_in with (g := fun _ => 0);
     [ clear; induction (ths st) as [|a l IH]; cbn [sumf]; [reflexivity|rewrite IH; reflexivity]
     | intros th Hth; rewrite (all_done_no_tokens st th G D Hth); reflexivity ]).
@@ -113,6 +123,7 @@ Proof.
   intros G E P I K.
   assert (1 <= aw (sh st)).
   { rewrite (g_aw _ G). pose proof (live_count_le KW st) as L.
+    set (sm := sumf (cnt KW) (ths st) + count_kind KW (mail (sh st))) in *.
     assert (1 <= count_kind KW (live st)); [|lia].
     clear - I K. induction (live st) as [|x l IH]; [contradiction|].
     rewrite (count_kind_cons KW x l). destruct I as [->|I].
@@ -180,3 +191,52 @@ Lemma counters_zero_when_done_proof :
     let st := run true sched (init level progs) in
     all_done st -> ar (sh st) = 0 /\ aw (sh st) = 0.
 Proof. intros. apply ginv_counters_zero; auto. apply reach_inv. Qed.
+
+(* (iii) also while closures of with_*_token run: every thread between accesses of an operation it is not inside
+   of (Idle) or inside a closure that owns its token (WBody) *)
+Definition at_rest (st : state) : Prop := forall th, In th (ths st) -> rest_pc (tpc th) = true.
+Lemma counters_exact_at_rest_proof :
+  forall level b progs sched,
+    let st := run true sched (initb level b progs) in
+    at_rest st ->
+    ar (sh st) = count_kind KR (live st) /\ aw (sh st) = count_kind KW (live st).
+Proof.
+  intros level b progs sched st Q. pose proof (reachb_inv level b progs sched) as G. fold st in G.
+  rewrite (g_ar _ G), (g_aw _ G). unfold live. rewrite !count_kind_app, !count_kind_flat_map.
+  split; f_equal; apply sumf_ext_in; intros th Hth; specialize (Q th Hth);
+    destruct (tpc th) eqn:P; try discriminate Q; first [apply cnt_idle; exact P | apply cnt_wbody; exact P].
+Qed.
+Example at_rest_nontrivial :
+  let st := run true (repeat 0%nat 6) (initb 3 32 [[WithR]]) in
+  map tpc (ths st) = [WBody] /\ ar (sh st) = 1 /\ live st = [Tok KR 2 1].
+Proof. vm_compute. auto. Qed.
+
+(* (iii) at every instant, not only at quiescence: a counter is at least the number of live tokens of its kind and exceeds it
+   by at most the number of threads that are in the middle of an acquire or a release *)
+Definition busy (th : thread) : bool := negb (rest_pc (tpc th)).
+Lemma cnt_pc_le k th : cnt_pc k (tpc th) <= if busy th then 1 else 0.
+Proof.
+  unfold busy. destruct (tpc th); cbn; try lia; destruct (kind_eqb _ _); lia.
+Qed.
+Lemma sumf_busy (l : list thread) : sumf (fun th => if busy th then 1 else 0) l = nlen (filter busy l).
+Proof.
+  induction l as [|a l IH]; cbn [sumf filter]; [reflexivity|]. rewrite IH. destruct (busy a); cbn [nlen]; lia.
+Qed.
+Lemma sumf_add {A} (f g : A -> N) l : sumf (fun x => f x + g x) l = sumf f l + sumf g l.
+Proof. induction l as [|a l IH]; cbn [sumf]; [reflexivity|]. rewrite IH. lia. Qed.
+
+Lemma counters_bounded_always_proof :
+  forall level b progs sched,
+    let st := run true sched (initb level b progs) in
+    count_kind KR (live st) <= ar (sh st) <= count_kind KR (live st) + nlen (filter busy (ths st)) /\
+    count_kind KW (live st) <= aw (sh st) <= count_kind KW (live st) + nlen (filter busy (ths st)).
+Proof.
+  intros level b progs sched st. pose proof (reachb_inv level b progs sched) as G. fold st in G.
+  rewrite (g_ar _ G), (g_aw _ G). unfold live. rewrite !count_kind_app, !count_kind_flat_map, <- sumf_busy.
+  assert (E : forall k, sumf (cnt k) (ths st) =
+                        sumf (fun th => count_kind k (tokens_of th)) (ths st) + sumf (fun th => cnt_pc k (tpc th)) (ths st)).
+  { intros k. unfold cnt. apply sumf_add. }
+  assert (B : forall k, sumf (fun th => cnt_pc k (tpc th)) (ths st) <= sumf (fun th => if busy th then 1 else 0) (ths st)).
+  { intros k. apply sumf_le. intros th. apply cnt_pc_le. }
+  rewrite !E. pose proof (B KR). pose proof (B KW). lia.
+Qed.
